@@ -21,6 +21,8 @@ func scenarios() []*sess.Scenario {
 	obj := func(t int32) sess.Call { return sess.Call{Tag: t, Kind: rpcsrv.KObj} }
 	return []*sess.Scenario{
 		{Name: "S1-2callers", Salt: 5, Opt: all, Callers: [][]sess.Call{{obj(1)}, {obj(2)}}},
+		// a coarse clock: every reading within the scenario returns the same instant
+		{Name: "S4-2callers-2ops-clock-does-not-advance", Salt: 5, Opt: all, ClockFrozen: true, Callers: [][]sess.Call{{obj(1), obj(3)}, {obj(2)}}},
 		{Name: "S2-3callers", Salt: 5, Opt: all, Callers: [][]sess.Call{{obj(1)}, {obj(2)}, {obj(3)}}},
 		{Name: "S3-2callers-2ops", Salt: 5, Opt: all, Callers: [][]sess.Call{{obj(1), obj(3)}, {obj(2), obj(4)}}},
 		{Name: "A1-two-updates-while-sending", Salt: 5, Opt: all, Handler: true, Callers: [][]sess.Call{{obj(1), obj(2)}},
